@@ -37,3 +37,10 @@ def multipitch_negative_frequency(case, observed):
     return (case.get("kind") == "fault" and case.get("entry") in ("multipitch.metrics", "multipitch.evaluate")
             and case.get("fault") == "freq-negative" and isinstance(observed, str)
             and observed.startswith("returned"))
+
+
+def pattern_standard_overcount(case, observed):
+    """standard_FPR precision = k / n_Q with k counted over REFERENCE prototypes: > 1 when more reference
+    prototypes are translates of estimated prototypes than there are estimated patterns."""
+    from mc.tasks import pattern as tp
+    return tp.pattern_standard_overcount(case, observed)
